@@ -20,7 +20,8 @@ def p_arith(ctx):
 
 def p_parts():
     from ._bookkeeping import p_bookkeeping
-    return [p_arith, p_bookkeeping]
+    from ._generic import optional_parts
+    return [p_arith, p_bookkeeping] + optional_parts(("_encoders", "p_encoders"))
 
 
 def run(ctx):
